@@ -18,8 +18,9 @@ fi
 echo "== demo on changed tree"; PYTHONPATH=$wt/src /venv/bin/python $dir/demo.py 2>&1 | tail -3; echo "demo_changed_rc=${PIPESTATUS[0]}"
 # run the check from a private copy of /verif (own lean/.lake) so that generated tables built from
 # the changed tree never leak into the build directory the other work uses
-sv=/var/tmp/seedverif
+sv=/var/tmp/seedverif-$prop
 mkdir -p $sv
+exec 9> $sv.lock; flock 9   # one seed run per property at a time
 flock /verif/lean/.lake.lock rsync -a --delete --exclude .git --exclude replays --exclude seeded /verif/ $sv/
 cd $sv
 echo "== ./check $prop (quick) on changed tree"; WZ_REPO=$wt ./check $prop --tier quick > $sv/last_check.log 2>&1
